@@ -179,7 +179,7 @@ func hasNonFinite(v any) bool {
 }
 
 func runC45(c *core.Ctx) {
-	c.Rule = "JSON-like Go values of depth <=2 (quick) / 3 (thorough) over 23 leaves (nil, bools, +-0, 1.5, MaxFloat64, denormal, int, MaxInt64, MaxUint64, int32, uint8, float32, strings incl. invalid UTF-8, []byte, json.Number, NaN, Inf, an unsupported type) with slices and maps of <=2 elements: NewValue fails iff the documented conversion is undefined (unsupported type, invalid UTF-8), otherwise AsInterface(NewValue(v)) deep-equals the documented conversion (integers and float32 to float64, []byte to base64), NewStruct/AsMap and NewList/AsSlice likewise, and for finite values encoding/json of AsInterface decodes to the same JSON value as protojson of the Value. anypb: for EVERY registered message type x every single-slot message: New / MarshalFrom / UnmarshalTo / UnmarshalNew / MessageIs / MessageName identities, MessageIs false for another type, UnmarshalTo into another type fails; UnmarshalTo into a destination that already holds another case's content, and UnmarshalNew, give exactly the verdict and content of proto.Unmarshal of the payload (partial and empty payloads included, with and without AllowPartial); for EVERY ordered pair of registered message types MessageIs is name equality and UnmarshalTo refuses the other type; 10 near-miss type URLs per type (prefix/suffix characters without a slash, trailing slash, nested slashes, empty): MessageName is the part after the last slash and MessageIs is equality with it"
+	c.Rule = "JSON-like Go values of depth <=2 (quick) / 3 (thorough) over 23 leaves (nil, bools, +-0, 1.5, MaxFloat64, denormal, int, MaxInt64, MaxUint64, int32, uint8, float32, strings incl. invalid UTF-8, []byte, json.Number, NaN, Inf, an unsupported type) with slices and maps of <=2 elements: NewValue fails iff the documented conversion is undefined (unsupported type, invalid UTF-8), otherwise AsInterface(NewValue(v)) deep-equals the documented conversion (integers and float32 to float64, []byte to base64), NewStruct/AsMap and NewList/AsSlice likewise, and for finite values encoding/json of AsInterface decodes to the same JSON value as protojson of the Value. anypb: for EVERY registered message type x every single-slot message: New / MarshalFrom / UnmarshalTo / UnmarshalNew / MessageIs / MessageName identities, MessageIs false for another type, UnmarshalTo into another type fails; MarshalFrom into an Any that already holds another case's message (the new message is held, a second Any sharing the old Value slice still denotes the old message, and wrapping the Any into itself yields the Any it was); UnmarshalTo into a destination that already holds another case's content, and UnmarshalNew, give exactly the verdict and content of proto.Unmarshal of the payload (partial and empty payloads included, with and without AllowPartial); for EVERY ordered pair of registered message types MessageIs is name equality and UnmarshalTo refuses the other type; 10 near-miss type URLs per type (prefix/suffix characters without a slash, trailing slash, nested slashes, empty): MessageName is the part after the last slash and MessageIs is equality with it"
 	c.Exhaustive = true
 	var n atomic.Int64
 	var vals []any
@@ -299,6 +299,30 @@ func runC45(c *core.Ctx) {
 				// partial messages: Any helpers use default options, which require initialization
 				if proto.CheckInitialized(m) != nil {
 					return
+				}
+				// a reused Any: MarshalFrom replaces the payload; bytes handed out earlier
+				// (another Any sharing the old Value slice) keep denoting the old message,
+				// and wrapping an Any into itself yields the Any it was
+				if m1 := univ.Build(mt, cases[(ci+len(cases)-1)%len(cases)], nil).Interface(); proto.CheckInitialized(m1) == nil {
+					if a1, err := anypb.New(m1); err == nil {
+						shared := &anypb.Any{TypeUrl: a1.TypeUrl, Value: a1.Value}
+						if err := a1.MarshalFrom(m); err != nil {
+							c.Violation(fmt.Sprintf("MarshalFrom into a used Any fails type=%s case=%s", name, univ.Names(slots)), err.Error())
+						} else {
+							if got, err := a1.UnmarshalNew(); err != nil || !proto.Equal(got, m) {
+								c.Violation(fmt.Sprintf("MarshalFrom into a used Any does not hold the new message type=%s case=%s", name, univ.Names(slots)), fmt.Sprint(err))
+							}
+							if old, err := shared.UnmarshalNew(); err != nil || !proto.Equal(old, m1) {
+								c.Violation(fmt.Sprintf("MarshalFrom into a used Any rewrites the payload bytes it handed out before type=%s case=%s", name, univ.Names(slots)), fmt.Sprint(err))
+							}
+							was := proto.Clone(a1)
+							if err := a1.MarshalFrom(a1); err != nil {
+								c.Violation(fmt.Sprintf("wrapping an Any into itself fails type=%s", name), err.Error())
+							} else if inner, err := a1.UnmarshalNew(); err != nil || !proto.Equal(inner, was) {
+								c.Violation(fmt.Sprintf("wrapping an Any into itself does not yield the Any it was type=%s case=%s", name, univ.Names(slots)), fmt.Sprint(err))
+							}
+						}
+					}
 				}
 				a, err := anypb.New(m)
 				if err != nil {
